@@ -88,6 +88,8 @@ pub fn spell_token(t: &str, rng: &mut Rng) -> String {
         "A" => rng.pick(&["50:30", " 50 : 30 "]).to_string(),
         "A2" => rng.pick(&["50.9:30.2", "50.999:30.5"]).to_string(),
         "Bc" => "90:50".to_string(),
+        "G1" => "8203:4107".to_string(),
+        "G2" => "16396:8204".to_string(),
         "Cn" => rng.pick(&["100:0", "100:0.4", "100:-0.9"]).to_string(),
         "bad" => rng.pick(&["1:", "5", "1e9:0", ":5", "7:x", "-x:5", "131073:0", "0:-131073"]).to_string(),
         "empty" => String::new(),
@@ -230,6 +232,8 @@ fn point_name(x: f32, y: f32) -> String {
         (50, 30, true) => "A".into(),
         (90, 50, true) => "Bc".into(),
         (100, 0, true) => "Cn".into(),
+        (8203, 4107, true) => "G1".into(),
+        (16396, 8204, true) => "G2".into(),
         _ => format!("?{x}:{y}"),
     }
 }
